@@ -333,8 +333,14 @@ func (p *Prog) VerifyFunction(fn *ssa.Function, fc *FuncContract, split *int, wa
 	if fc != nil {
 		for _, as := range fc.Asserts {
 			if as.Matched == 0 {
-				e.failed = fmt.Errorf("%s:%d: assert before %q matches no call in %s any more", as.Clause.File, as.Clause.Line, as.Key, e.Unit)
-				return e
+				// the call the assertion is keyed to is gone: the asserted fact is no longer established
+				// anywhere, which is a failing obligation (the other obligations are still generated)
+				lab := as.Clause.Label
+				if lab == "" {
+					lab = "keyed"
+				}
+				o := e.oblig(e.entry, "assert", lab+":no-call-matches:"+as.Key, False, fn.Pos(), as.Clause.Tags, as.Clause)
+				o.Desc = fmt.Sprintf("%s:%d: assert before %q matches no call in %s any more", as.Clause.File, as.Clause.Line, as.Key, e.Unit)
 			}
 		}
 	}
